@@ -40,9 +40,9 @@ from checks import c14
 LEVEL = "exploration"
 
 ALL_OPS = '{"id", "get", "assign", "newkey", "update", "updid", "add", "del", "merge", "mergeas"}'
-KNOWN_LITS = {2, 25, 54, 41, 43, 18, 35, 11, 36, 19, 20}  # literals that trigger the known finding LSP (leading space); `<<` (merge key) and
+KNOWN_LITS = {2, 25, 54, 41, 43, 18, 35, 11, 36, 19, 20, 29}  # literals that trigger the known finding LSP (leading space); `<<` (merge key) and
                                   # NEL as a new key / value are left out (exotic, meaning on reload debatable)
-PAL_OK = "{" + ",".join(str(i) for i in range(1, 61) if i not in (8, 19, 23, 25, 40)) + "}"      # 40 = "0o17", 8 = "0x1" (literal 11): known finding OCT; 25 = " a": LSP; 19 = "a,b" (literals 36 ",", 19 "[", 20 "{k}"): FLOWIND; 23 = "|" (and literals 18 "|", 35 ">"): KEYBLK
+PAL_OK = "{" + ",".join(str(i) for i in range(1, 61) if i not in (8, 19, 23, 24, 25, 40)) + "}"      # 40 = "0o17", 8 = "0x1" (literal 11): known finding OCT; 25 = " a": LSP; 19 = "a,b" (literals 36 ",", 19 "[", 20 "{k}"): FLOWIND; 23 = "|" (and literals 18 "|", 35 ">"): KEYBLK; 24 = "%" (literal 29): PCTKEY
 LITS_OK = "{" + ", ".join(str(i) for i in range(1, 61) if i not in KNOWN_LITS) + "}"
 
 
@@ -63,7 +63,10 @@ def scopes(q):
     br3 = '{"LF", "CRLF", "CR"}'
     return [
         # every operation x every target x three stressing literals, every tree <= 3 nodes
-        ("ops", cfg_text("{1}", 3, 1, '{"plain"}', both, 0, ALL_OPS, "{4, 23, 55}", "{2}", inv=True), None, 3 if q else 1),
+        ("ops", cfg_text("{1}", 3, 1, '{"plain"}', both, 0, ALL_OPS, "{4, 23, 55}", "{2}", inv=True), None, 4 if q else 1),
+        # EVERY literal of the table as an assigned / updated value, and as a new key, in block and flow context
+        ("lits", cfg_text("{1}", 3, 1, '{"plain"}', both, 0, '{"assign", "update"}', LITS_OK, "{2}"), None, 15 if q else 1),
+        ("newkeys", cfg_text("{1}", 2, 1, '{"plain"}', both, 0, '{"newkey"}', LITS_OK, "{2}"), None, 90 if q else 3),
         # every indent 0..7, block scalars in the input and in the literal
         ("indent", cfg_text("{1, 31}", 3, 1, '{"plain", "lit"}', '{"block"}', 0, '{"id", "assign"}', "{55}", i07), None, 2 if q else 1),
         # anchors and aliases everywhere, writes through aliases, two-step pipes
@@ -76,8 +79,8 @@ def scopes(q):
         ("simk", cfg_text("{1, 13, 25}", 4, 1, '{"plain", "single"}', both, 1000, '{"assign", "newkey", "update", "add"}',
                           "{2, 25, 54}", "{0, 2}", sim=True), "num=%d" % (40 if q else 300), 1),
         # key anchors, `get` of subtrees holding aliases, "0o17": exhibits AKEY / SUBALIAS / OCT
-        ("simk2", cfg_text("{1, 8, 19, 23, 40}", 6, 1, '{"plain", "single", "lit"}', both, 1000, '{"id", "get", "del", "assign"}', "{1}", "{2}",
-                           sim=True, avoid='{"K1", "K2", "HC"}'), "num=%d" % (80 if q else 600), 1),
+        ("simk2", cfg_text("{1, 8, 19, 23, 24, 40}", 4, 1, '{"plain", "single", "lit"}', both, 1000, '{"id", "get", "del", "assign"}', "{1}", "{2}",
+                           sim=True, avoid='{"K1", "K2", "HC"}'), "num=%d" % (120 if q else 800), 1),
     ]
 
 
@@ -216,6 +219,14 @@ def classify(c, events, k):
                 t = text(tok)
                 if re.search(r"[,\[\]{}]", t) and re.search(r"[\[{,:]\s*(&\w+ )?" + re.escape(t) + r"\s*[:,\]}]", c.get("yaml_out", "")):
                     return "FLOWIND"
+        # KEYBLK (text form): a key that is exactly `|` or `>` is printed unquoted (`|: ...`); depending on what follows
+        # the loader reads an empty key or a block scalar
+        if any(t in ("k:7c", "k:3e") for t in jt) and re.search(r"(^|\n)\s*(- )*(&\w+ )?[|>]:", c.get("yaml_out", "")):
+            return "KEYBLK"
+        # PCTKEY: the first key of a document starts with `%` and is printed plain at column 0, where the loader
+        # (correctly) reads a directive line: the document comes back empty
+        if re.match(r"(---\n)?%", c.get("yaml_out", "")) and len(yt) < len(jt):
+            return "PCTKEY"
         if len(jt) != len(yt):
             return ""
         kinds = set()
